@@ -11,6 +11,7 @@ caught and propagating exceptions, threads, objects with raising dunders) with a
 same results, same exceptions, same output, same final data, trace function still installed."""
 import contextlib
 import io
+import os
 import sys
 import threading
 
@@ -422,6 +423,33 @@ def differential(ctx, n):
         world.clear_pending()
 
 
+def pristine_logging_differential(ctx):
+    """The same small application in two FRESH interpreters, with and without the agent as its trace function, its logging
+    untouched by this harness: what it prints, what its own (later) logging configuration captures and how many handlers the
+    root logger ends up with must be the same."""
+    import shutil
+    import subprocess
+    here = os.path.dirname(os.path.dirname(os.path.abspath(__file__)))
+    d = os.path.join(os.path.dirname(here), "build", "live_c01")
+    os.makedirs(d, exist_ok=True)
+    host = os.path.join(d, "host_logging_%d.py" % os.getpid())
+    shutil.copy(os.path.join(here, "data", "c01_host_logging.py"), host)
+    env = dict(os.environ, PYTHONPATH=os.environ.get("VERIF_DEV_SRC", "/repo/src"), PYTHONHASHSEED="0")
+    outs = {}
+    try:
+        for mode in ("plain", "agent"):
+            p = subprocess.run([sys.executable, host, mode], env=env, stdout=subprocess.PIPE, stderr=subprocess.PIPE, text=True, timeout=120)
+            outs[mode] = (p.returncode, p.stdout, p.stderr)
+    finally:
+        os.remove(host)
+    j = dict(host="harness/data/c01_host_logging.py", note="snapshot tracepoint on a line whose frame holds bytes and a generator; "
+             "the application logs a warning before configuring logging, then calls logging.basicConfig(stream=...) and logs again")
+    ctx.case(j, nontrivial=True, bucket="fresh-interpreter")
+    if outs["plain"] != outs["agent"]:
+        ctx.fail("fresh interpreters: without the agent the application gives (exit, stdout, stderr) = %r, with the agent %r" % (
+            outs["plain"], outs["agent"]), j, tag="host-output")
+
+
 def run(ctx):
     import logging
     from ..lib.quiet import quiet_logging
@@ -446,6 +474,7 @@ def run(ctx):
                              "no-raise whitelist in coverage.notes.translated.Skeleton.whitelist)")
     fault_enumeration(ctx)
     differential(ctx, 60 if ctx.thorough else 10)
+    pristine_logging_differential(ctx)
 
 
 def replay(ctx, data):
